@@ -200,6 +200,12 @@ func checkC16(t *testing.T, c C16Case) Verdict {
 		if pmsg != "" {
 			return bad("C16:panic:"+via, "source %s -> dest %s: %s", describeVal(src), c.Dest, pmsg)
 		}
+		if via == "store" && src == nil {
+			// a nil stored under a key: the statement speaks about non-nil values only; what Bind
+			// does here (today: JSON null, destination untouched) is not asserted - it must not panic
+			outs = append(outs, outcome{err != nil, dFlyt})
+			continue
+		}
 		refErr := refBind(src, present, dRef, via == "result")
 		if (err != nil) != refErr {
 			return bad("C16:error-mismatch:"+via, "source %s (%#v) -> dest form %s via %s: Bind error=%v, reference (own type => assign, else json.Marshal+Unmarshal) error=%v", describeVal(src), src, c.Dest, via, err, refErr)
